@@ -3605,16 +3605,17 @@ def missing_context_manager(source: str) -> str:
         root, template, object, expand_last=True
     ):
         target_template = ast.Name(id=target.id)
+        nodes = [tup[0] for tup in nodes]  # The statements themselves, not their matches
         if any(
-            isinstance(node, (ast.Yield, ast.Return)) and core.walk(node, target_template)
+            any(core.walk(escape, target_template))
             for node in nodes
+            for escape in core.walk(node, (ast.Yield, ast.YieldFrom, ast.Return))
         ):
-            continue
+            continue  # It is handed out, and must stay open
 
         if any(core.filter_nodes(nodes, (ast.FunctionDef, ast.ClassDef, ast.AsyncFunctionDef))):
             continue
 
-        nodes = [tup[0] for tup in nodes]
         while nodes:
             if core.walk(nodes[-1], target_template):
                 break
